@@ -37,7 +37,7 @@ mod txlog;
 
 pub use snapshot::{PathSnap, Snapshot, SpaceSnap, StreamsSnap};
 pub use inject::{FrameProbe, Inject, StreamProbe};
-pub use txlog::TxLog;
+pub use txlog::{TxLog, TxPkt};
 
 pub(crate) fn hex(b: &[u8]) -> String {
     if b.is_empty() {
